@@ -8,6 +8,7 @@ if [ "$1" = "-e" ]; then
   while [ "$1" = "-e" ]; do sed -i "$2" "$D/$3"; shift 3; done
 else
   (cd "$D" && patch -p1 -s < "$1") || { echo "patch failed"; rm -rf "$D"; exit 2; }
+  shift
 fi
 diff -r -q /repo/pandora "$D/pandora" | grep -v pycache
 VF_REPO=$D /verif/vcheck "$ID" --tier "$TIER" "$@"; rc=$?
